@@ -1,10 +1,84 @@
 //! C18 — every transmission is the unmodified request, addressed as asked
 
+use proptest::prelude::*;
+use serde::{Deserialize, Serialize};
 use serde_json::{json, Value};
+
+use stun_proto::agent::{StunAgent, Transmit};
+use stun_types::data::{Data, DataOwned, DataSlice};
+use stun_types::TransportType;
 
 use crate::agentsim::{Profile, Summary};
 use crate::common::*;
+use crate::ensure;
 use crate::props::agentprops::*;
+
+/// transmit construction paths: send_data, Transmit::{new,new_owned,into_owned,data}, Data conversions
+#[derive(Debug, Clone, Serialize, Deserialize)]
+pub struct TxCase {
+    pub bytes: Hex,
+    pub tcp: bool,
+    pub local: String,
+    pub to: String,
+}
+
+fn tx_test(c: &TxCase, st: &mut Stats) -> TestResult {
+    st.eval();
+    let local: std::net::SocketAddr = c.local.parse().map_err(|_| Fail::new("harness", "bad address"))?;
+    let to: std::net::SocketAddr = c.to.parse().map_err(|_| Fail::new("harness", "bad address"))?;
+    let transport = if c.tcp { TransportType::Tcp } else { TransportType::Udp };
+    let bytes = &c.bytes.0;
+    let agent = StunAgent::builder(transport, local).build();
+    let check = |t: &Transmit, what: &str| -> TestResult {
+        ensure!(
+            t.data() == bytes.as_slice() && &*t.data == bytes.as_slice(),
+            "c18-bytes",
+            "{}: carries {} instead of the {} bytes handed over ({})",
+            what,
+            hex_short(t.data()),
+            bytes.len(),
+            hex_short(bytes)
+        );
+        ensure!(
+            t.from == local && t.to == to && t.transport == transport,
+            "c18-addressing",
+            "{}: is {:?} {} -> {}, expected {:?} {} -> {}",
+            what,
+            t.transport,
+            t.from,
+            t.to,
+            transport,
+            local,
+            to
+        );
+        Ok(())
+    };
+    let t = guard(|| agent.send_data(bytes, to)).map_err(|p| Fail::new("c18-panic", p))?;
+    check(&t, "send_data")?;
+    let owned = t.into_owned();
+    check(&owned, "send_data(..).into_owned()")?;
+    check(&Transmit::new(bytes.as_slice(), transport, local, to), "Transmit::new(borrowed)")?;
+    check(&Transmit::new(bytes.clone().into_boxed_slice(), transport, local, to), "Transmit::new(owned)")?;
+    check(&Transmit::new_owned(bytes.as_slice(), transport, local, to), "Transmit::new_owned")?;
+    check(&Transmit::new(bytes.as_slice(), transport, local, to).into_owned().into_owned(), "into_owned twice")?;
+    // the copy-on-write container underneath
+    let d = Data::from(bytes.as_slice());
+    let o = d.clone().into_owned();
+    let slice = DataSlice::from(bytes.as_slice());
+    let boxed: Box<[u8]> = DataOwned::from(bytes.clone().into_boxed_slice()).take();
+    ensure!(
+        &*d == bytes.as_slice() && &*o == bytes.as_slice() && matches!(o, Data::Owned(_)) && &*slice.to_owned() == bytes.as_slice() && slice.take() == bytes.as_slice() && &*boxed == bytes.as_slice(),
+        "c18-bytes",
+        "Data / DataSlice / DataOwned conversions changed the {} bytes {}",
+        bytes.len(),
+        hex_short(bytes)
+    );
+    if !bytes.is_empty() {
+        st.nontrivial(digest(&(bytes, c.tcp, &c.to)));
+    }
+    st.class("transmit construction paths compared");
+    Ok(())
+}
 
 fn nontrivial(s: &Summary) -> bool {
     s.retransmit_compared > 0 || s.two_dests_outstanding
@@ -34,12 +108,23 @@ static PROP: AgentProp = AgentProp {
 
 pub fn run(ctx: &Ctx) -> EvidenceMeta {
     drive(ctx, &PROP, 25_000, 800_000);
+    ctx.proptest(
+        "transmit-construction",
+        ctx.n(4_000, 200_000),
+        || {
+            (crate::gen::bytes_len(prop_oneof![4 => 0usize..=64, 2 => 0usize..=1500, 1 => 65_500usize..=65_556]), any::<bool>(), crate::gen::sockaddr_strategy(), crate::gen::sockaddr_strategy())
+                .prop_map(|(b, tcp, local, to)| TxCase { bytes: Hex(b), tcp, local, to })
+        },
+        tx_test,
+    );
     EvidenceMeta {
         rule: "histories as in C05/C06 with generated message contents (typed and raw attributes, sealing, fingerprint, two methods) and 3 \
                destinations (IPv4/IPv6), both transports, requests, indications and responses sent through the agent. Oracle: every Transmit \
                from send and poll carries exactly builder.clone().build() captured before the send, from = the agent's local address, to = \
                the destination given at send, the agent's transport; peer_address() of every outstanding transaction after every call; \
-               non-requests leave no transaction. Non-trivial = at least one retransmission compared, or two transactions with \
+               non-requests leave no transaction. A second check compares the transmit construction paths themselves (send_data, \
+               Transmit::new / new_owned / into_owned / data(), Data / DataSlice / DataOwned conversions) on generated byte strings and \
+               addresses. Non-trivial = at least one retransmission compared, or two transactions with \
                different destinations outstanding together; distinct by history."
             .into(),
         assumptions: vec![],
@@ -48,6 +133,10 @@ pub fn run(ctx: &Ctx) -> EvidenceMeta {
     }
 }
 
-pub fn replay(_check: &str, case: &Value, st: &mut Stats) -> Result<TestResult, String> {
+pub fn replay(check: &str, case: &Value, st: &mut Stats) -> Result<TestResult, String> {
+    if check == "transmit-construction" {
+        let c: TxCase = parse_case(case)?;
+        return Ok(tx_test(&c, st));
+    }
     replay_history(&PROP, case, st)
 }
